@@ -59,5 +59,6 @@ def main (args : List String) : IO UInt32 := do
   match args with
   | ["trace"] => traceLoop stdin stdout [] none; return 0
   | ["lex"] => lexLoop stdin stdout; stdout.flush; return 0
+  | ["lines"] => Lex.linesMain stdin stdout; stdout.flush; return 0
   | ["wb"] => Vsgm.WB.wbMain stdin stdout; return 0
   | _ => IO.eprintln "usage: driver <mode>"; return 2
